@@ -27,6 +27,12 @@
 (* Authorization value that action handed out ("act"), which belongs to    *)
 (* acthost and to nobody else.                                             *)
 (*                                                                         *)
+(* kind = "authd" is a transfer request whose action the batch response    *)
+(* marked "authenticated": true: git-lfs then sends it through             *)
+(* lfshttp.Client.Do, which follows redirects under the same rules (same   *)
+(* hop limit, same stripping of Authorization) but never asks anybody for  *)
+(* credentials and never learns an access mode.                            *)
+(*                                                                         *)
 (* Fixed = TRUE threads the list of visited requests through the nested    *)
 (* frames (the repaired code); Fixed = FALSE transcribes the pinned code,  *)
 (* where the via list is appended to by value and the hop limit never      *)
@@ -44,9 +50,10 @@ VARIABLES pc, host, hdr, hops, access, origHdr, frames, sawHttps, log, hlog, scr
 vars == <<pc, host, hdr, hops, access, origHdr, frames, sawHttps, log, hlog, script, mode, source, form, cache, result, kind, acthost, qtry>>
 View == <<pc, host, hdr, hops, access, origHdr, frames, sawHttps, script, mode, source, form, cache, result, kind, acthost, qtry>>
 
+IsTransfer == kind \in {"storage", "authd"}
 Init == /\ kind \in Kinds /\ acthost \in ActHosts /\ (kind = "api" => acthost = "api")
         /\ pc = "start" /\ host = "api" /\ hdr = "none" /\ hops = 0 /\ qtry = 0
-        /\ origHdr = IF kind = "storage" THEN "act" ELSE "none"      \* the action's header is on the request from the start
+        /\ origHdr = IF IsTransfer THEN "act" ELSE "none"      \* the action's header is on the request from the start
         /\ frames = <<>> /\ sawHttps = FALSE /\ log = <<>> /\ hlog = <<>> /\ script = [h \in Hosts |-> <<>>] /\ result = "none"
         /\ mode \in {"none", "basic"} /\ source \in CredSources
         \* every redirect of the run spells its Location in this form where the form can express the
@@ -60,7 +67,7 @@ Init == /\ kind \in Kinds /\ acthost \in ActHosts /\ (kind = "api" => acthost = 
         /\ cache \in BOOLEAN
         \* a transfer request runs under the access mode recorded for its own URL (none until a 401 teaches
         \* otherwise), through DoWithAuthNoRetry; an API request under the mode configured for the API URL
-        /\ access = IF kind = "storage" THEN "none" ELSE mode
+        /\ access = IF IsTransfer THEN "none" ELSE mode
 
 \* getCreds: <<Authorization the request leaves with, TRUE iff the credential helper was asked>>
 GetCreds(h, carried, acc) ==
@@ -88,7 +95,7 @@ Start == /\ pc = "start"
             /\ frames' = << [host |-> acthost, creds |-> g[2], ui |-> (source = "urluser" /\ kind = "api")] >>
             \* a transfer attempt begins with the batch call that hands out the action: an API request of
             \* its own (not followed here), for which the helper is asked and approved under basic access
-            /\ hlog' = IF kind = "storage" /\ mode = "basic" /\ source = "helper"
+            /\ hlog' = IF IsTransfer /\ mode = "basic" /\ source = "helper"
                          THEN Seen(<< <<"fill", "api">>, <<"approve", "api">> >>, hlog) ELSE Fill(acthost, g)
          /\ pc' = "send" /\ sawHttps' = FALSE
          /\ UNCHANGED <<access, log, script, mode, source, form, cache, result, kind, acthost, qtry>>
@@ -111,7 +118,7 @@ Unwind(what) == LET n == Len(frames)
 \* the request ends; a failed transfer is given to the queue once more (lfs.transfer.maxretries = 1 in every
 \* run): a new attempt from the batch call on, with the access mode learnt so far
 MaxQ == 1
-Finish(r) == IF kind = "storage" /\ r # "ok" /\ qtry < MaxQ
+Finish(r) == IF IsTransfer /\ r # "ok" /\ qtry < MaxQ
                THEN pc' = "start" /\ result' = result /\ origHdr' = "act" /\ qtry' = qtry + 1 /\ UNCHANGED <<host, hdr, hops, frames>>
                ELSE pc' = "done" /\ result' = r /\ qtry' = qtry /\ UNCHANGED <<host, hdr, hops, origHdr, frames>>
 
@@ -130,7 +137,7 @@ Respond(a) ==
         /\ hlog' = Seen(Unwind("approve"), hlog) /\ access' = access /\ Finish("ok")
      ELSE IF a[1] = "unauth" THEN
         /\ hlog' = hlog \o Unwind("reject")
-        /\ access' = "basic"                                    \* Lfs-Authenticate: Basic
+        /\ access' = IF kind = "authd" THEN access ELSE "basic"   \* Lfs-Authenticate: Basic (lfshttp.Client.Do records nothing)
         /\ LET left == IF frames[1].creds THEN "none" ELSE origHdr IN
            IF left # "none"
              THEN Finish("auth error")                          \* the caller's request keeps an Authorization nobody can replace
@@ -141,7 +148,7 @@ Respond(a) ==
         /\ IF Fixed /\ hops + 1 >= MaxHops THEN hlog' = hlog /\ Finish("too many redirects")
            ELSE IF Scheme(host) = "https" /\ Scheme(t) = "http" THEN hlog' = hlog /\ Finish("refused insecure redirect")
            ELSE LET carried == IF t = host THEN hdr ELSE "none"    \* Authorization only survives a same host:port redirect
-                    g == GetCreds(t, carried, access)
+                    g == IF kind = "authd" THEN <<carried, FALSE>> ELSE GetCreds(t, carried, access)
                 IN /\ host' = t /\ hops' = hops + 1 /\ hdr' = g[1]
                    /\ frames' = Append(frames, [host |-> t, creds |-> g[2], ui |-> (frames[Len(frames)].ui /\ form = "path" /\ t = host)])
                    /\ hlog' = Fill(t, g)
